@@ -349,7 +349,7 @@ pub fn reference(cfg: &Cfg, hist: &[Op]) -> Ref {
                 return r.one(50.0);
             }
             r.cond = m.max(u.f()).max(d.f()) / den.f();
-            r.one(u.mulf(100.0).div(den).f())
+            r.one(u.div(den).mulf(100.0).f())
         }
         Kind::FastStoch => {
             let bs = bars(hist);
@@ -504,7 +504,7 @@ pub fn reference(cfg: &Cfg, hist: &[Op]) -> Ref {
             r.cond = maxflow / den.f().abs();
             r.den = den.f();
             r.maxflow = maxflow;
-            r.one(pmf.mulf(100.0).div(den).f())
+            r.one(pmf.div(den).mulf(100.0).f())
         }
         Kind::Obv => {
             let bs = bars(hist);
